@@ -54,11 +54,13 @@ type W struct { // workload
 	NS, Name string
 	Sel      Sel
 	Tmpl     []pair
+	Zero     bool // spec.replicas == 0 (scaled down): ownership does not depend on it
 }
 
 type Ing struct {
 	NS       string
 	Backends []string
+	OneRule  bool // the path backends are several paths of ONE rule (instead of one rule each)
 }
 
 type Term struct {
@@ -211,11 +213,34 @@ func lselOf(s Sel) *metav1.LabelSelector {
 	return ls
 }
 
+// closures created by ONE function literal with different captured values
+//
+//go:noinline
+func labelIs(key, val string) func(metav1.Object) bool {
+	return func(o metav1.Object) bool { return o.GetLabels()[key] == val }
+}
+
 var fnTable = map[string]func(metav1.Object) bool{
+	"cx1": labelIs("x", "1"),
+	"cx2": labelIs("x", "2"),
 	"x1":  func(o metav1.Object) bool { return o.GetLabels()["x"] == "1" },
 	"x1b": func(o metav1.Object) bool { v, ok := o.GetLabels()["x"]; return ok && v == "1" },
 	"n1":  func(o metav1.Object) bool { return o.GetNamespace() == "n1" },
 }
+
+func replicasOf(w W) *int32 {
+	if w.Zero {
+		z := int32(0)
+		return &z
+	}
+	return nil
+}
+
+var (
+	scratchIDs   = make([]nsname.NSName, 0, 8)
+	scratchMap   = map[string]string{}
+	scratchNames = make([]string, 0, 8)
+)
 
 func om(w W) metav1.ObjectMeta { return metav1.ObjectMeta{Namespace: w.NS, Name: w.Name} }
 
@@ -242,13 +267,21 @@ func (t *Term) Build() filter.Filter {
 		}
 		return filter.Or(cs...)
 	case "nsname":
-		var ids []nsname.NSName
+		// the caller's slice is reused for the next filter: a filter must not alias its arguments
+		scratchIDs = scratchIDs[:0]
 		for _, p := range t.IDs {
-			ids = append(ids, nsname.New(p[0], p[1]))
+			scratchIDs = append(scratchIDs, nsname.New(p[0], p[1]))
 		}
-		return filter.NSName(ids...)
+		return filter.NSName(scratchIDs...)
 	case "labels":
-		return filter.Labels(mapOf(t.M))
+		for k := range scratchMap {
+			delete(scratchMap, k)
+		}
+		for _, p := range t.M {
+			scratchMap[p[0]] = p[1]
+		}
+		f := filter.Labels(scratchMap)
+		return f
 	case "lsel":
 		return filter.LabelSelector(lselOf(t.Sel))
 	case "selector":
@@ -265,7 +298,8 @@ func (t *Term) Build() filter.Filter {
 	case "fn":
 		return filter.FN(fnTable[t.ID])
 	case "node":
-		return pod.NodeFilter(t.Names...)
+		scratchNames = append(scratchNames[:0], t.Names...)
+		return pod.NodeFilter(scratchNames...)
 	case "involved":
 		if t.ViaObject {
 			// the object form: kind from the object's TypeMeta, namespace and name from its metadata
@@ -281,13 +315,21 @@ func (t *Term) Build() filter.Filter {
 		var ings []*netv1beta1.Ingress
 		for i, g := range t.Ings {
 			ing := &netv1beta1.Ingress{ObjectMeta: metav1.ObjectMeta{Namespace: g.NS, Name: fmt.Sprintf("ing%d", i)}}
+			var paths []netv1beta1.HTTPIngressPath
 			for j, b := range g.Backends {
-				if j == 0 {
+				if j == 0 && !g.OneRule {
 					ing.Spec.Backend = &netv1beta1.IngressBackend{ServiceName: b}
+					continue
+				}
+				if g.OneRule {
+					paths = append(paths, netv1beta1.HTTPIngressPath{Backend: netv1beta1.IngressBackend{ServiceName: b}})
 					continue
 				}
 				ing.Spec.Rules = append(ing.Spec.Rules, netv1beta1.IngressRule{IngressRuleValue: netv1beta1.IngressRuleValue{
 					HTTP: &netv1beta1.HTTPIngressRuleValue{Paths: []netv1beta1.HTTPIngressPath{{Backend: netv1beta1.IngressBackend{ServiceName: b}}}}}})
+			}
+			if len(paths) > 0 {
+				ing.Spec.Rules = append(ing.Spec.Rules, netv1beta1.IngressRule{IngressRuleValue: netv1beta1.IngressRuleValue{HTTP: &netv1beta1.HTTPIngressRuleValue{Paths: paths}}})
 			}
 			ings = append(ings, ing)
 		}
@@ -304,19 +346,19 @@ func (t *Term) Build() filter.Filter {
 			var xs []*corev1.ReplicationController
 			for _, w := range t.Srcs {
 				tm := tmplOf(w)
-				xs = append(xs, &corev1.ReplicationController{ObjectMeta: om(w), Spec: corev1.ReplicationControllerSpec{Selector: mapOf(w.Sel.ML), Template: &tm}})
+				xs = append(xs, &corev1.ReplicationController{ObjectMeta: om(w), Spec: corev1.ReplicationControllerSpec{Replicas: replicasOf(w), Selector: mapOf(w.Sel.ML), Template: &tm}})
 			}
 			return replicationcontroller.PodsFilter(xs...)
 		case "rs":
 			var xs []*appsv1.ReplicaSet
 			for _, w := range t.Srcs {
-				xs = append(xs, &appsv1.ReplicaSet{ObjectMeta: om(w), Spec: appsv1.ReplicaSetSpec{Selector: lselOf(w.Sel), Template: tmplOf(w)}})
+				xs = append(xs, &appsv1.ReplicaSet{ObjectMeta: om(w), Spec: appsv1.ReplicaSetSpec{Replicas: replicasOf(w), Selector: lselOf(w.Sel), Template: tmplOf(w)}})
 			}
 			return replicaset.PodsFilter(xs...)
 		case "deployment":
 			var xs []*appsv1.Deployment
 			for _, w := range t.Srcs {
-				xs = append(xs, &appsv1.Deployment{ObjectMeta: om(w), Spec: appsv1.DeploymentSpec{Selector: lselOf(w.Sel), Template: tmplOf(w)}})
+				xs = append(xs, &appsv1.Deployment{ObjectMeta: om(w), Spec: appsv1.DeploymentSpec{Replicas: replicasOf(w), Selector: lselOf(w.Sel), Template: tmplOf(w)}})
 			}
 			return deployment.PodsFilter(xs...)
 		case "daemonset":
@@ -328,7 +370,7 @@ func (t *Term) Build() filter.Filter {
 		case "statefulset":
 			var xs []*appsv1.StatefulSet
 			for _, w := range t.Srcs {
-				xs = append(xs, &appsv1.StatefulSet{ObjectMeta: om(w), Spec: appsv1.StatefulSetSpec{Selector: lselOf(w.Sel), Template: tmplOf(w)}})
+				xs = append(xs, &appsv1.StatefulSet{ObjectMeta: om(w), Spec: appsv1.StatefulSetSpec{Replicas: replicasOf(w), Selector: lselOf(w.Sel), Template: tmplOf(w)}})
 			}
 			return statefulset.PodsFilter(xs...)
 		case "job":
@@ -462,6 +504,8 @@ func objectUniverse() []FObj {
 			}
 		}
 	}
+	objs = append(objs, FObj{Kind: "pod", NS: "n1", Name: "a", Labels: []pair{{"x", ""}}}, FObj{Kind: "pod", NS: "n1", Name: "b", Labels: []pair{{"x", ""}, {"y", "1"}}},
+		FObj{Kind: "event", NS: "n1", Name: "ev-lower", Inv: [3]string{"pod", "n1", "a"}})
 	for _, nn := range [][2]string{{"n2", "n1"}, {"n1", "n1"}, {"a", "b"}} {
 		objs = append(objs, FObj{Kind: "pod", NS: nn[0], Name: nn[1], Labels: []pair{{"x", "1"}}})
 	}
@@ -490,7 +534,7 @@ func leafUniverse() (all []*Term, core []*Term) {
 	} {
 		add(&Term{Op: "nsname", IDs: ids}, i == 0 || i == 2 || i == 6)
 	}
-	for i, m := range [][]pair{{}, {{"x", "1"}}, {{"x", "2"}}, {{"y", "1"}}, {{"x", "1"}, {"y", "1"}}, {{"x", "1"}, {"y", "2"}}} {
+	for i, m := range [][]pair{{}, {{"x", "1"}}, {{"x", "2"}}, {{"y", "1"}}, {{"x", "1"}, {"y", "1"}}, {{"x", "1"}, {"y", "2"}}, {{"x", ""}}, {{"x", ""}, {"y", "1"}}} {
 		add(&Term{Op: "labels", M: m}, i == 1 || i == 4)
 	}
 	for i, s := range []Sel{
@@ -507,13 +551,13 @@ func leafUniverse() (all []*Term, core []*Term) {
 	for i, rs := range [][]Req{{{"x", "In", []string{"1"}}}, {{"x", "Exists", nil}, {"y", "NotIn", []string{"2"}}}, {}} {
 		add(&Term{Op: "selector", Reqs: rs}, i == 1)
 	}
-	for i, id := range []string{"x1", "x1b", "n1"} {
-		add(&Term{Op: "fn", ID: id}, i == 0 || i == 2)
+	for i, id := range []string{"x1", "x1b", "n1", "cx1", "cx2"} {
+		add(&Term{Op: "fn", ID: id}, i == 0 || i >= 2)
 	}
 	for i, n := range [][]string{{"w1"}, {"w1", "w2"}, {"w2", "w1"}, {}} {
 		add(&Term{Op: "node", Names: n}, i == 1)
 	}
-	for i, v := range [][3]string{{"Pod", "n1", "a"}, {"Pod", "n2", "a"}, {"Service", "n1", "a"}} {
+	for i, v := range [][3]string{{"Pod", "n1", "a"}, {"Pod", "n2", "a"}, {"Service", "n1", "a"}, {"pod", "n1", "a"}} {
 		add(&Term{Op: "involved", Kind: v[0], NS: v[1], Name: v[2]}, i == 0)
 	}
 	for _, v := range [][3]string{{"Node", "", "w1"}, {"Pod", "n1", "a"}, {"Pod", "default", "a"}} {
@@ -532,7 +576,7 @@ func leafUniverse() (all []*Term, core []*Term) {
 		add(&Term{Op: "pods", Kind: k, Srcs: []W{w3, w1}}, false)
 		add(&Term{Op: "pods", Kind: k, Srcs: []W{}}, false)
 	}
-	for i, g := range [][]Ing{{{"n1", []string{"a"}}}, {{"n1", []string{"a", "b"}}}, {{"n1", []string{"a"}}, {"n2", []string{"b"}}}, {{"n2", []string{"b"}}, {"n1", []string{"a"}}}} {
+	for i, g := range [][]Ing{{{NS: "n1", Backends: []string{"a"}}}, {{NS: "n1", Backends: []string{"a", "b"}}}, {{NS: "n1", Backends: []string{"a"}}, {NS: "n2", Backends: []string{"b"}}}, {{NS: "n2", Backends: []string{"b"}}, {NS: "n1", Backends: []string{"a"}}}, {{NS: "n1", Backends: []string{"a", "c"}, OneRule: true}}} {
 		add(&Term{Op: "services", Ings: g}, i == 0)
 	}
 	return
@@ -632,7 +676,7 @@ func workloadTerms(tier string) []*Term {
 					}
 					// names: same name in both namespaces for some, distinct for others
 					name := fmt.Sprintf("w%d%d", si, ti)
-					ws = append(ws, W{NS: ns, Name: name, Sel: s, Tmpl: tm})
+					ws = append(ws, W{NS: ns, Name: name, Sel: s, Tmpl: tm, Zero: (si+ti)%3 == 0})
 				}
 			}
 		}
@@ -665,8 +709,11 @@ func workloadTerms(tier string) []*Term {
 	var ings []Ing
 	for _, ns := range []string{"n1", "n2"} {
 		for _, b := range backs {
-			ings = append(ings, Ing{ns, b})
+			ings = append(ings, Ing{NS: ns, Backends: b})
 		}
+	}
+	for _, ns := range []string{"n1", "n2"} {
+		ings = append(ings, Ing{NS: ns, Backends: []string{"a", "b"}, OneRule: true}, Ing{NS: ns, Backends: []string{"c", "b", "a"}, OneRule: true})
 	}
 	for i := range ings {
 		ts = append(ts, &Term{Op: "services", Ings: []Ing{ings[i]}})
@@ -726,27 +773,22 @@ func filtersMain(args []string) int {
 	w.write2(fmt.Sprintf(`{"k":"objects","objs":[%s]}`, strings.Join(ob, ",")))
 
 	built := make([]filter.Filter, len(terms))
+	var accs []string
+	var metas [][2]bool
 	nacc := 0
 	for i, t := range terms {
 		f := t.Build()
 		built[i] = f
 		acc := make([]byte, 0, 2*len(real))
-		acc2 := make([]byte, 0, 2*len(real))
 		for j, o := range real {
 			if j > 0 {
 				acc = append(acc, ',')
-				acc2 = append(acc2, ',')
 			}
 			if f.Accept(o) {
 				acc = append(acc, '1')
 				nacc++
 			} else {
 				acc = append(acc, '0')
-			}
-			if f.Accept(o) {
-				acc2 = append(acc2, '1')
-			} else {
-				acc2 = append(acc2, '0')
 			}
 		}
 		rebuilt := filter.FiltersEqual(f, t.Build()) && filter.FiltersEqual(t.Build(), f)
@@ -761,7 +803,25 @@ func filtersMain(args []string) int {
 			// Equals must agree with FiltersEqual
 			rebuilt = rebuilt && cf.Equals(t.Build())
 		}
-		w.write2(fmt.Sprintf(`{"k":"term","id":%d,"t":%s,"acc":[%s],"acc2":[%s],"rebuilt_eq":%v,"perm_eq":%v}`, i+1, t.JSON(), acc, acc2, rebuilt, perm))
+		accs = append(accs, string(acc))
+		metas = append(metas, [2]bool{rebuilt, perm})
+	}
+	// second pass, after every other filter was built from the same (reused) argument containers and every
+	// filter was evaluated once: Accept is a pure function of the object
+	for i, t := range terms {
+		f := built[i]
+		acc2 := make([]byte, 0, 2*len(real))
+		for j, o := range real {
+			if j > 0 {
+				acc2 = append(acc2, ',')
+			}
+			if f.Accept(o) {
+				acc2 = append(acc2, '1')
+			} else {
+				acc2 = append(acc2, '0')
+			}
+		}
+		w.write2(fmt.Sprintf(`{"k":"term","id":%d,"t":%s,"acc":[%s],"acc2":[%s],"rebuilt_eq":%v,"perm_eq":%v}`, i+1, t.JSON(), accs[i], acc2, metas[i][0], metas[i][1]))
 	}
 	neq := 0
 	npairs := 0
